@@ -57,6 +57,9 @@ pub struct OpSpec {
     /// token the future is wrapped with (`with_cancel`); `None` = plain future, no token (then
     /// nothing but the driver and the future keep the operation's storage alive)
     pub tok: Option<usize>,
+    /// an OUTER cancel scope wrapped around the inner one (`f.with_cancel(tok).with_cancel(outer)`):
+    /// the innermost scope owns the operation, the outer token must not affect it
+    pub outer: Option<usize>,
 }
 
 impl OpSpec {
@@ -69,7 +72,7 @@ impl OpSpec {
 }
 
 pub fn ntok(sc: &Scenario) -> usize {
-    sc.ops.iter().filter_map(|o| o.tok).map(|k| k + 1).max().unwrap_or(0)
+    sc.ops.iter().flat_map(|o| [o.tok, o.outer]).flatten().map(|k| k + 1).max().unwrap_or(0)
 }
 
 #[derive(Clone, Debug)]
@@ -83,11 +86,11 @@ pub struct Scenario {
 }
 
 fn op(kind: OpKind, fd: usize, tok: usize) -> OpSpec {
-    OpSpec { kind, fd, tok: Some(tok) }
+    OpSpec { kind, fd, tok: Some(tok), outer: None }
 }
 
 fn plain(kind: OpKind, fd: usize) -> OpSpec {
-    OpSpec { kind, fd, tok: None }
+    OpSpec { kind, fd, tok: None, outer: None }
 }
 
 pub fn scenarios() -> Vec<Scenario> {
@@ -95,6 +98,13 @@ pub fn scenarios() -> Vec<Scenario> {
     use OpKind::*;
     vec![
         Scenario { name: "recv2", deeper: true, fds: vec![Sock], ops: vec![op(Recv, 0, 0), op(Recv, 0, 1)] },
+        // nested cancel scopes: op 0 sits in scope tok0 inside scope tok1; op 1 in scope tok1 only
+        Scenario {
+            name: "nested-scopes",
+            deeper: false,
+            fds: vec![Sock],
+            ops: vec![OpSpec { kind: Recv, fd: 0, tok: Some(0), outer: Some(1) }, op(Recv, 0, 1)],
+        },
         Scenario { name: "recv2-one-token", deeper: false, fds: vec![Sock], ops: vec![op(Recv, 0, 0), op(Recv, 0, 0)] },
         Scenario { name: "recv+pollonce", deeper: true, fds: vec![Sock], ops: vec![op(Recv, 0, 0), op(PollR, 0, 1)] },
         Scenario { name: "pollonce+recv", deeper: false, fds: vec![Sock], ops: vec![plain(PollR, 0), op(Recv, 0, 0)] },
